@@ -3,8 +3,12 @@ package main
 import (
 	"context"
 	"fmt"
+	kvredis "github.com/acquirecloud/golibs/kvs/redis"
+	"github.com/alicebob/miniredis/v2"
+	"github.com/go-redis/redis/v8"
 	"math/rand"
 	"sync"
+	"sync/atomic"
 	"time"
 
 	"github.com/acquirecloud/golibs/kvs"
@@ -155,5 +159,72 @@ func driveKvReaders(opt *Options) error {
 	}
 	wg.Wait()
 	tw.Emit(map[string]any{"op": "Readers", "reads": reads})
+	return driveKvFresh(tw)
+}
+
+// driveKvFresh: sixteen goroutines write at once; every version that comes back must be different from every other
+// (in-memory store; Redis client shared by all goroutines; one Redis client per goroutine).
+func driveKvFresh(tw *TraceWriter) error {
+	const G, N = 16, 1500
+	for _, backend := range []string{"inmem", "redis-shared", "redis-each"} {
+		var sts []kvs.Storage
+		var mr *miniredis.Miniredis
+		if backend == "inmem" {
+			st := inmem.New()
+			for g := 0; g < G; g++ {
+				sts = append(sts, st)
+			}
+		} else {
+			var err error
+			if mr, err = miniredis.Run(); err != nil {
+				return err
+			}
+			shared := kvredis.New(&redis.Options{Addr: mr.Addr()})
+			for g := 0; g < G; g++ {
+				if backend == "redis-shared" {
+					sts = append(sts, shared)
+				} else {
+					sts = append(sts, kvredis.New(&redis.Options{Addr: mr.Addr()}))
+				}
+			}
+		}
+		vers := make([][]string, G)
+		var errs int64
+		var wg sync.WaitGroup
+		start := make(chan struct{})
+		for g := 0; g < G; g++ {
+			wg.Add(1)
+			go func(g int) {
+				defer wg.Done()
+				<-start
+				ctx := context.Background()
+				for i := 0; i < N; i++ {
+					r, err := sts[g].Put(ctx, kvs.Record{Key: fmt.Sprintf("f/%d/%d", g, i%8), Value: []byte("v")})
+					if err != nil {
+						atomic.AddInt64(&errs, 1)
+						continue
+					}
+					vers[g] = append(vers[g], r.Version)
+				}
+			}(g)
+		}
+		close(start)
+		wg.Wait()
+		seen := map[string]bool{}
+		dups, n := 0, 0
+		for _, vs := range vers {
+			for _, v := range vs {
+				n++
+				if seen[v] {
+					dups++
+				}
+				seen[v] = true
+			}
+		}
+		if mr != nil {
+			mr.Close()
+		}
+		tw.Emit(map[string]any{"op": "Fresh", "backend": backend, "n": n, "dups": dups, "errs": errs})
+	}
 	return nil
 }
